@@ -49,6 +49,8 @@ var plans = map[string][]run{
 	"C20": {
 		{Name: "sched", Tags: []string{"verifsched"}, Instrument: "sched", Shards: 16, OneCPU: true},
 		{Name: "race", Tags: []string{"verifrace"}, Race: true},
+		{Name: "sched-purego", Tags: []string{"verifsched", "purego"}, Instrument: "sched", Shards: 8, OneCPU: true},
+		{Name: "race-purego", Tags: []string{"verifrace", "purego"}, Race: true},
 	},
 	"C05": {
 		{Name: "asm"},
